@@ -388,6 +388,42 @@ func init() {
 					WithOneof(&spec.Oneof{Name: "first", Config: true, Disc: "a_type", Flatten: true}, &spec.Oneof{Name: "second", Config: true, Disc: "b_type", Flatten: true}),
 					child()}, nil
 			}},
+		)
+		// two-oneof family: every way the members two discriminated oneofs of one message put at the same level can meet - the
+		// discriminators of both, the fields of a flattened one's variants, the variant members of a nested one - for each
+		// flatten combination and both declaration orders
+		two := func(rule string, offenders []string, first, second *spec.Oneof, swap bool) {
+			out = append(out, Misuse{Rule: rule, JSONRule: true, Offenders: offenders, Build: func() ([]*spec.Message, []*spec.Enum) {
+				a := []*spec.Field{spec.Msg("a_one", "Child").In("first"), spec.Msg("a_two", "Child").In("first")}
+				b := []*spec.Field{spec.Msg("b_one", "Other").In("second"), spec.Msg("b_two", "Other").In("second")}
+				o1, o2 := *first, *second // the derived families rewrite the specs they are given
+				fs, os := append(append([]*spec.Field{spec.F("id", "string")}, a...), b...), []*spec.Oneof{&o1, &o2}
+				if swap {
+					fs, os = append(append([]*spec.Field{spec.F("id", "string")}, b...), a...), []*spec.Oneof{&o2, &o1}
+				}
+				return []*spec.Message{spec.M("Bad", fs...).WithOneof(os...), child(), spec.M("Other", spec.F("amount", "int32"), spec.F("unit", "string"))}, nil
+			}})
+		}
+		for _, swap := range []bool{false, true} {
+			sfx := map[bool]string{false: "", true: "_declared_second"}[swap]
+			for _, fl := range []struct {
+				n    string
+				a, b bool
+			}{{"flat_flat", true, true}, {"flat_nested", true, false}, {"nested_flat", false, true}, {"nested_nested", false, false}} {
+				two("two_oneofs_same_discriminator_"+fl.n+sfx, []string{"Bad"},
+					&spec.Oneof{Name: "first", Config: true, Disc: "type", Flatten: fl.a}, &spec.Oneof{Name: "second", Config: true, Disc: "type", Flatten: fl.b}, swap)
+				if fl.a {
+					// Child has the field city: the flattened first oneof puts it beside the second oneof's discriminator
+					two("oneof_discriminator_collides_with_sibling_flattened_child_"+fl.n+sfx, []string{"Bad", "city"},
+						&spec.Oneof{Name: "first", Config: true, Disc: "a_type", Flatten: true}, &spec.Oneof{Name: "second", Config: true, Disc: "city", Flatten: fl.b}, swap)
+				} else {
+					// the nested first oneof has the member a_one: the second oneof's discriminator is named like it
+					two("oneof_discriminator_collides_with_sibling_variant_member_"+fl.n+sfx, []string{"Bad", "a_one"},
+						&spec.Oneof{Name: "first", Config: true, Disc: "a_type", Flatten: false}, &spec.Oneof{Name: "second", Config: true, Disc: "aOne", Flatten: fl.b}, swap)
+				}
+			}
+		}
+		out = append(out,
 			Misuse{Rule: "flatten_on_optional_scalar", JSONRule: true, Offenders: []string{"Bad", "val"}, Build: func() ([]*spec.Message, []*spec.Enum) {
 				return []*spec.Message{spec.M("Bad", spec.F("val", "string").Opt().Flat())}, nil
 			}},
@@ -443,10 +479,14 @@ func MisuseSpec(mu Misuse, placement string, among bool) *spec.Spec {
 	case "nested":
 		outer := spec.M("Outer", spec.Msg("inner", "Outer.Bad"))
 		// nested types: references inside must be qualified
+		declared := map[string]bool{}
+		for _, m := range msgs {
+			declared[m.Name] = true
+		}
 		for _, m := range msgs {
 			for _, fl := range m.Fields {
-				if fl.Kind == "message" && fl.Type == "Child" {
-					fl.Type = "Outer.Child"
+				if fl.Kind == "message" && declared[fl.Type] {
+					fl.Type = "Outer." + fl.Type
 				}
 				if fl.Kind == "enum" && fl.Type == "Mood" {
 					fl.Type = "Outer.Mood"
